@@ -30,6 +30,8 @@ def project_list(tier):
     out.append(("res", [("f_resmix", {"demands": ("cpu:2", "cpu:1", "cpu:1,gpu:1", "q:1")})],
                 {"njob": 3, "resources": "cpu:2,gpu:1"}))
     out.append(("amend_built", [("f_amend", {"extra": "built"})], {"njob": 2}))
+    out.append(("amend_optional_dropped", [("f_amend", {"extra": "optional"}),
+                                           ("f_amend", {"extra": "optional", "version": "none"})], {"njob": 2}))
     out.append(("amend_tree", [("f_amend", {"extra": "tree"})], {"njob": 2}))
     out.append(("prodcons", [("f_prodcons", {"consumer": "read_first", "producer_by": "step"})], {"njob": 3}))
     out.append(("defercap", [("f_prodcons", {"consumer": "read_first"})], {"njob": 3, "defer_cap": 1}))
